@@ -23,23 +23,47 @@
                                                     selected input j is DER||hashtype and ECDSA-valid for the CONSENSUS sighash of
                                                     input j under the public key of its signing key - all eight kinds, any number of
                                                     inputs, any version / locktime, all six flags
+     send_valid, FULL [Spec.Sighash.unlocks] form
+                         C16_send_unlocks           all eight kinds (p2pk, p2pkh, multisig, p2sh, p2wpkh, p2wsh, p2sh-p2wpkh,
+                                                    p2sh-p2wsh), any number of inputs, any version / locktime, all six flags: the bytes
+                                                    send_tx returns are the (BIP144) serialisation of a well-formed transaction t'
+                                                    with the selected outpoints, and for EVERY selected input j the items pushed by
+                                                    its scriptSig (Spec push-only parser [push_items]) and its witness stack satisfy
+                                                      unlocks sha256 ripemd160 ecdsa_ok bip66_valid decode_inner t' j (sats u_j) l items_j wit_j
+                                                    for the lock l = lock_of (scriptPubKey of u_j), with
+                                                      ecdsa_ok pk der d  = ecmath.verify accepts the DER-decoded (r, s) under the SEC1-decoded
+                                                                           key pk on the digest d,
+                                                      bip66_valid        = BIP66 IsValidSignatureEncoding (Spec/Bip66.v),
+                                                      decode_inner / lock_of / push_items = Spec/ScriptTemplatesDecode.v (byte layouts),
+                                                    t' = the SIGNED transaction (both signature hashes are shown invariant under the
+                                                    replacement of the scriptSigs).  Hypotheses: curve_facts (C01), sqrt_facts (C14),
+                                                    p, n <= 2^256, |ripemd160| = 20, |sha256| = 32, the reported amounts / txids well
+                                                    formed, a standard flag, and [pays_to]: every reported scriptPubKey is the standard
+                                                    script of the sender's decoded keys (p2pk: the key's point in either SEC1 form;
+                                                    p2pkh: HASH160 of the encoding the code pushes; multisig / script-hash kinds: the
+                                                    m-of-n script with EXACTLY m sender keys matching its keys in order, or behind a
+                                                    script hash the pubkey script with the one sender key).
+                         C16_scriptcode_wpkh        the p2wpkh / p2sh-p2wpkh scriptCode is 19 76 a9 14 HASH160(pubkey) 88 ac
+                                                    (discharges the scriptCode hypothesis of C16_sign_inputs_valid for these kinds).
+                         C16_send_unlocks_nonvacuous   the hypotheses hold in a concrete p2wpkh run (F_43 curve, kernel-computed).
    The former known findings (segwit: output index used as input index, messages for unselected unspents, version / locktime
    defaults; legacy: one signature for all inputs, flag not applied; raw sender without change address) are REPAIRED in /repo;
    their ..._refuted theorems are gone with the code they described (regression inputs: corpus/c16 and the seeded/revert-COMMIT directories).
+   FINDING (new, proved): send_tx signs with ALL the keys it is given.  For an m-of-n script with more than m keys supplied
+     (e.g. both keys of a 1-of-2) it returns a transaction whose scriptSig / witness carries more than m signatures, which does
+     NOT satisfy the script: C16_multisig_surplus_keys_refuted (every kind with a multisig script) and the concrete run
+     C16_multisig_surplus_keys_example_refuted.  The code has no check `len(sender_keys) == m`.
 
    STILL NOT THEOREMS (kept visible):
-     send_valid, full [Spec.Sighash.unlocks] form:
-         forall scenario with keys, forall selected input j,
-           unlocks sha256 ripemd160 ecdsa strict_der decode_inner t j (sats u_j) (lock_of kind) items_j wit_j
-       proved above at the SIGNATURE level; missing for the template form: the assembly-layer lemmas (script() push encodings of
-       the items, decode of the multisig redeem script, SEC1 round trip of keys.pub, BIP66 strictness, HASH160 / SHA256
-       commitments of the sender's own script).  The correspondence (independent checker harness/c16ref.py: unlocks + OpenSSL
-       ECDSA) checks exactly these on every scenario of every run.
-     the p2wpkh scriptCode: hypothesis [scriptcode_of k = Ok (ser_script script)] of C16_sign_inputs_valid (discharged for the
-       p2wsh kinds by C16_scriptcode_wsh; for p2wpkh script = 76 a9 14 HASH160(pubkey) 88 ac, checked by the correspondence).
-     sat_exact :  forall k, 0 <= k <= 21*10^14 -> sat_of_btc (nearest_double (k / 10^8)) = Ok k.   Not proved (needs an error
-       analysis of two roundings: |err| <= k * 2^-52 < 1/2); kernel-computed below for the boundary amounts and 0..4000, and
-       checked by every correspondence run. *)
+     send_valid: [pays_to] is a hypothesis - that the scantxoutset result pays to the sender's keys is outside send_tx; a
+       redeem / witness script that is NOT the standard multisig or pubkey script (e.g. P2PKH behind a script hash: the code
+       places no public key) is not covered.  curve_facts / sqrt_facts are theorems for secp256k1 itself (Props/Secp256k1.v;
+       instance C16_send_unlocks_secp256k1 in Props/Secp256k1Inst.v).
+     sat_exact is NO LONGER a premise for the amounts a node reports: Props/C16Sat.v (C16_sat_exact_all, C16_sat_exact_of_json; proof
+       Proofs/SatExact.v through Flocq's Bdiv / Bmult correctness and the relative error of round-to-nearest) shows
+       sat_of_btc (correctly rounded k / 10^8) = Ok k for EVERY 0 <= k <= 21*10^14.  That file depends on the standard library's
+       axioms of the classical reals (named there); the theorems of THIS file keep sat_exact as an explicit hypothesis and stay
+       closed under the global context.  The kernel-computed instances below are kept as examples. *)
 From Coq Require Import ZArith List Lia Bool.
 From Coq Require Import Floats.SpecFloat.
 From Coq Require Floats.PrimFloat.
@@ -48,6 +72,9 @@ Require Import Bits.Spec.Bip143 Bits.Spec.Sighash.
 Require Import Bits.Model.Ecmath Bits.Model.Keys Bits.Model.Der Bits.Model.SendValue Bits.Model.Send Bits.Model.SendPrim.
 Require Import Bits.Proofs.Ecmath Bits.Proofs.Ecdsa.
 Require Import Bits.Proofs.SendValue Bits.Proofs.Send Bits.Proofs.SendSign Bits.Proofs.SendValid Bits.Proofs.SendExamples.
+Require Import Bits.Spec.Bip66 Bits.Spec.ScriptTemplatesDecode Bits.Proofs.Sec1 Bits.Proofs.ScriptWitness.
+Require Import Bits.Proofs.SendUnlocks Bits.Proofs.SendUnlocks2 Bits.Proofs.SendUnlocks3 Bits.Proofs.SendUnlocks5 Bits.Proofs.SendUnlocks8
+        Bits.Proofs.SendUnlocksExamples.
 Require Bits.Model.Tx Bits.Proofs.Tx Bits.Proofs.SmallCurves.
 Import ListNotations.
 Import Coq.Init.Byte.
@@ -394,3 +421,85 @@ Proof.
   - vm_compute. discriminate.
 Qed.
 Print Assumptions C16_build_example.
+
+(* ------------------------------------------------------------------------------------------------ send_valid (template level) *)
+(* the scriptCode of the p2wpkh kinds *)
+Theorem C16_scriptcode_wpkh :
+  forall (p a n : Z) (G : point) (sha256 ripemd160 : bytes -> bytes),
+    (forall m, length (ripemd160 m) = 20%nat) ->
+    forall (k : keyinfo) sc,
+    is_kind (ki_type k) [k_p2wpkh; k_p2sh_p2wpkh] = true ->
+    scriptcode_of p a n G sha256 ripemd160 k = Ok sc ->
+    exists k0 pk, hd_error (ki_keys k) = Some k0 /\ pub p a n G k0 true = Ok pk /\
+                  sc = ser_script (p2pkh_code (hash160 sha256 ripemd160 pk)) /\
+                  Z.of_nat (length (p2pkh_code (hash160 sha256 ripemd160 pk))) < 2 ^ 64.
+Proof. exact scriptcode_wpkh. Qed.
+Print Assumptions C16_scriptcode_wpkh.
+
+(* send_tx produces validly signed transactions: every selected input of the transaction it returns is unlocked *)
+Theorem C16_send_unlocks :
+  forall (p a b n : Z) (G : point) (sha256 ripemd160 : bytes -> bytes) (scriptpubkey : bytes -> result bytes)
+         (is_address : bytes -> bool),
+    curve_facts p a b n G -> sqrt_facts p -> p <= 2 ^ 256 -> n <= 2 ^ 256 ->
+    (forall m, length (ripemd160 m) = 20%nat) -> (forall m, length (sha256 m) = 32%nat) ->
+    forall (sats : utxo -> Z) sender recipient change sk sks f frac fee version locktime total unspents draws raw,
+    send_tx p a n G sha256 ripemd160 scriptpubkey is_address sender recipient change (sk :: sks) (Some f) frac fee version locktime
+            total unspents draws = Ok raw ->
+    (forall x, In x unspents -> length (u_txid x) = 32%nat /\ sat_of_btc (u_amount x) = Ok (sats x) /\ 0 <= sats x < 2 ^ 64) ->
+    standard_flag f ->
+    (forall k, decode_keys sha256 (sk :: sks) (Some f) = Ok k ->
+               forall x, In x unspents -> pays_to p a b n G sha256 ripemd160 k (u_spk x)) ->
+    exists k u,
+      decode_keys sha256 (sk :: sks) (Some f) = Ok k /\
+      build_unsigned p a n G sha256 ripemd160 scriptpubkey is_address sender recipient change (Some k) frac fee total unspents = Ok u /\
+      exists t' wstacks,
+        wf_tx t' /\ tx_version t' = version /\ tx_locktime t' = locktime /\
+        us_txouts u = map ser_txout (tx_outs t') /\
+        raw = PT.tx_bytes (segwit_kind k) version (map ser_txin (tx_ins t')) (map ser_txout (tx_outs t'))
+                          (map spec_witness wstacks) locktime /\
+        length (tx_ins t') = length (us_selected u) /\ length wstacks = length (us_selected u) /\
+        forall j xt, nth_error (us_selected u) j = Some xt ->
+          exists i' items wit l,
+            nth_error (tx_ins t') j = Some i' /\ ti_txid i' = rev (u_txid (fst xt)) /\ ti_vout i' = u_vout (fst xt) /\
+            push_items (ti_script i') = Some items /\ nth_error wstacks j = Some wit /\
+            lock_of (u_spk (fst xt)) = Some l /\
+            unlocks sha256 ripemd160 (ecdsa_ok p a b n G) bip66_valid decode_inner t' j (sats (fst xt)) l items wit.
+Proof. exact send_unlocks. Qed.
+Print Assumptions C16_send_unlocks.
+
+(* the hypotheses of C16_send_unlocks are satisfiable: a p2wpkh run on the F_43 curve, two of three outputs selected and signed *)
+Example C16_send_unlocks_nonvacuous :
+  (exists raw, ex_run = Ok raw) /\
+  curve_facts 43 0 7 31 Bits.Proofs.SmallCurves.G43 /\ sqrt_facts 43 /\ 43 <= 2 ^ 256 /\ 31 <= 2 ^ 256 /\
+  (forall m, length (toy_rmd m) = 20%nat) /\ (forall m, length (toy_hash m) = 32%nat) /\
+  (forall x, In x ex_unspents ->
+     length (u_txid x) = 32%nat /\ sat_of_btc (u_amount x) = Ok 100000000 /\ 0 <= 100000000 < 2 ^ 64) /\
+  standard_flag 1 /\
+  (forall k, decode_keys toy_hash [ex_wif] (Some 1) = Ok k ->
+             forall x, In x ex_unspents -> pays_to 43 0 7 31 Bits.Proofs.SmallCurves.G43 toy_hash toy_rmd k (u_spk x)).
+Proof. exact send_unlocks_example. Qed.
+Print Assumptions C16_send_unlocks_nonvacuous.
+
+(* FINDING: more sender keys than the script's m -> more than m signatures are placed -> the input is NOT unlocked *)
+Theorem C16_multisig_surplus_keys_refuted :
+  forall sha256 ripemd160 ecdsa strict_der (dg : Z -> option bytes) m pks sgs,
+    length sgs <> m -> ~ inner_unlocks sha256 ripemd160 ecdsa strict_der dg (I_multisig m pks) ([] :: sgs).
+Proof. exact multisig_surplus_keys_refuted. Qed.
+Print Assumptions C16_multisig_surplus_keys_refuted.
+
+Example C16_multisig_surplus_keys_example_refuted :
+  (exists raw, send_tx 43 0 31 Bits.Proofs.SmallCurves.G43 toy_hash toy_rmd spk_of all_addresses [] [] None ms_wifs (Some 1)
+                       (sf_of_me 1 0) 1000 2 0 one_btc ms_unspents ms_draws = Ok raw) /\
+  exists k u sigs ss items,
+    decode_keys toy_hash ms_wifs (Some 1) = Ok k /\
+    build_unsigned 43 0 31 Bits.Proofs.SmallCurves.G43 toy_hash toy_rmd spk_of all_addresses [] [] None (Some k) (sf_of_me 1 0) 1000
+                   one_btc ms_unspents = Ok u /\
+    sign_inputs 43 0 31 Bits.Proofs.SmallCurves.G43 toy_hash toy_rmd k (Some 1) 2 0 u ms_draws = Ok sigs /\
+    assemble 43 0 31 Bits.Proofs.SmallCurves.G43 k (Some ms_spk) 1 sigs = Ok ([ss], []) /\
+    push_items ss = Some items /\ length items = 3%nat /\
+    lock_of ms_spk = Some (L_bare (I_multisig 1 [ex_pk; ex_pk7]) ms_spk) /\
+    forall t' j amt,
+      ~ unlocks toy_hash toy_rmd (ecdsa_ok 43 0 7 31 Bits.Proofs.SmallCurves.G43) bip66_valid decode_inner t' j amt
+                (L_bare (I_multisig 1 [ex_pk; ex_pk7]) ms_spk) items [].
+Proof. exact multisig_surplus_keys_example_refuted. Qed.
+Print Assumptions C16_multisig_surplus_keys_example_refuted.
